@@ -518,6 +518,9 @@ where
             kani::assert(n_grants == k, "C07.alloc.err_leaks_no_chunk");
             kani::assert(a.wf(), "C07.alloc.err_keeps_invariant");
             kani::assert(a.cur_index() >= ci && a.cur_index() < k, "C07.alloc.err_current_chunk_valid");
+            // "after the failure ... keeps working": the failed request leaves the current chunk and its position
+            // where they were (prepared, not yet committed allocations of the Mut* collections live there)
+            kani::assert(a.cur_index() == ci && a.snaps()[ci].pos == before[ci].pos, "C07.alloc.err_leaves_current_chunk_and_position");
         }
     }
     kani::assert(!w_alloc || (wa - 0 == wa && (n_grants > k || a.is_allocated(wa))), "C01.alloc.allocated_only_grows");
